@@ -130,7 +130,9 @@ impl FeelNumber {
   }
   ///
   pub fn is_integer(&self) -> bool {
-    dec_is_integer(&self.0)
+    // the same integer may be written with fraction zeros (2.0) or with an exponent (1E+2),
+    // so it is the value that is tested: a finite number equal to its integral part
+    dec_is_finite(&self.0) && dec_is_zero(&dec_compare(&self.0, &dec_trunc(&self.0)))
   }
   ///
   pub fn is_one(&self) -> bool {
